@@ -294,10 +294,12 @@ def check(fx, rep, tier):
     rep.rule('R08.4', 'the handler future is awaited in the loop body; no spawn/join in the server module')
     rep.rule('R08.5', 'every decoded call reaches the handler; Service::handle is on every path of the handler; the handled call is the select item')
     rep.rule('R08.6', 'reply operations used by the handler flush: nothing stays queued when the handler returns')
+    rep.rule('R08.8', 'the select over the connections hands out the output of the first ready future with its own index and polls nothing after it (R18.2 of C18): a completed receive is never dropped')
     rep.rule('R08.7', 'the receive path is cancel-safe (R07.1-R07.3): the select loop drops every pending receive future each time another branch '
                       'wins, so a call arriving in several reads is still decoded whole and handled exactly once')
     for cfg in ['full'] + (['ws'] if tier == 'thorough' else []):
         check_cfg(fx, rep, fx.crate('zlink_core', cfg), cfg)
     import imports
     imports.cancel_safety(fx, rep, 'R08.7', 'the server loop drops pending receive futures whenever another connection, an accept or a stream item wins the select')
+    imports.rules_of(fx, rep, 'C18', {'R18.2'}, 'R08.8', 'a future that completed in the select has consumed its call from the connection buffer: unless it is handed out at once the call is never answered')
     return META
